@@ -35,8 +35,7 @@ def run(ctx, report):
     core = [i for i in infos.values() if i.kind == "core"]
     wrappers = [i for i in infos.values() if i.kind == "wrapper"]
     helpers = [i for i in infos.values() if i.kind == "helper"]
-    report.check("FLOOR", "core-mutators", len(core) >= FLOOR_CORE, "at least %d core mutators analysed (found %d)" % (FLOOR_CORE, len(core)), config=cfg)
-    report.check("FLOOR", "wrappers", len(wrappers) >= FLOOR_WRAPPERS, "at least %d wrappers analysed (found %d)" % (FLOOR_WRAPPERS, len(wrappers)), config=cfg)
+    mutators.public_mutator_floor(ctx, report, infos)
     conforming = set()
     for info in core:
         f = info.fn
@@ -428,7 +427,7 @@ def validated_before(ctx, f, an, bb, t, value_param):
     the insert, with key'/value' denoting the inserted key/value"""
     g = an.cfg
     kexpr = strip(an.operand_expr(t.args[1], bb, len(f.blocks[bb].stmts)))
-    kk = kexpr.a[1][0] if (kexpr.k == "call" and kexpr.a[0].name in ("to_vec", "into", "to_owned", "clone") and kexpr.a[1]) else kexpr
+    kk = kexpr.a[1][0] if (kexpr.k == "call" and kexpr.a[0].name in ("to_vec", "into", "to_owned", "from", "clone") and kexpr.a[1]) else kexpr
     vexpr = strip(an.operand_expr(t.args[2], bb, len(f.blocks[bb].stmts)))
     for b2, t2 in f.calls():
         if not (t2.callee and t2.callee.local and t2.callee.name == "check_spec_reserved_keys"):
@@ -544,7 +543,7 @@ def build_facts(ctx):
             w = {"bb": bb, "idx": ev["idx"], "path": ev["path"], "sp": ev["sp"], "kind": "other", "what": (t.callee.full if t is not None and t.callee else ev["kind"])}
             if ev["kind"] == "mutcall" and t is not None and t.callee and t.callee.name == "insert" and "BTreeMap" in t.callee.fn and ev["path"][:1] == ["content"] and len(t.args) == 3:
                 kexpr = strip(an.operand_expr(t.args[1], bb, ev["idx"]))
-                kk = kexpr.a[1][0] if (kexpr.k == "call" and kexpr.a[0].name in ("to_vec", "into", "to_owned", "from") and kexpr.a[1]) else kexpr
+                kk = kexpr.a[1][0] if (kexpr.k == "call" and kexpr.a[0].name in ("to_vec", "into", "to_owned", "from", "clone") and kexpr.a[1]) else kexpr
                 ck = const_key(kk)
                 w["kind"] = "insert"
                 w["key"] = ck
